@@ -298,10 +298,11 @@ func init() {
 		ID: "C01",
 		Explanation: "Decides structural necessary conditions of 'generated parsers accept exactly the language' across table writers (lalr/) and readers (the five committed generated parsers and js's hand-written parse loop): CODEC(parser): every read of the packed table is guarded by 0 <= pos < tmTableLen, -2-action is used as a state only for action < -1, rule tables are indexed only with action >= 0. SIBLING(gotoState): the generated default-encoding gotoState has the same comparisons, index arithmetic and returns as lalr.(*DefaultEnc).gotoState. ENTRY: the i-th exported Parse* starts in state i with a final state that is not an entry state. " +
 			"GUARD(markerfree): RuleLen counts only non-marker symbols. CODEC(optimize), GUARD(usedBase), GUARD(dedupe), GUARD(entry), FIELDCOV(minimize), MUSTPASS(compile-order), MUSTPASS(nonassoc-rewrite): the writers keep the encodings consistent. FRESH(lookahead): every read of p.next in each parse() is dominated by a definition made in the same call (no stale lookahead on a reused Parser). RESET(histogram): reused counter slices of Optimize/pickDefault are zeroed per state. PERITEM(flag): boolean fields of per-item records (Input.NoEoi, ...) are not carried around the loop that builds them. " +
-			"Not decided: correctness of the LR(0)/LALR construction and of the shift/reduce loop as algorithms; the error-location clause. TYPESTATE(lookahead): positions of p.next are read only while a lookahead is fetched. DTX(lr0-shift): a state with a reduction that gains a shift consults the lookahead. GUARD(final): minimize keeps final states apart from ordinary states. DTX(assocmap)/LOCKSTEP(precGroup)/GUARD(optimize-la) run as part of the shared precedence and compile-order rules (see C04, C05). GUARD(dedicated-accept): the state that receives the end-of-input shift is created for its input, or is a goto target that no other state has a transition into (an input nonterminal reachable from itself must not end the parse in an inner context). FIELDCOV(rebuild): a record rebuilt from another record of its type (syntax.Input in Instantiate) gives every field. COPY(struct-slices): a value copy of a struct (clone := *last) whose slice field a callee writes in place (addShift inserts into shifts) is given its own backing array before that call; otherwise the end-of-input transition of the input's private final state is written into the shared state's array and inner contexts accept too.",
-		Rules: []string{"CODEC(parser)", "SIBLING(gotoState)", "DTX(lr0-shift)", "ENTRY", "GUARD(markerfree)", "CODEC(optimize)", "GUARD(usedBase)", "GUARD(dedupe)", "GUARD(entry)", "GUARD(final)", "FIELDCOV(minimize)", "MUSTPASS(compile-order)", "MUSTPASS(nonassoc-rewrite)", "FRESH(lookahead)", "TYPESTATE(lookahead)", "RESET(histogram)", "PERITEM(flag)", "DTX(assocmap)", "GUARD(optimize-la)", "LOCKSTEP(precGroup)", "GUARD(dedicated-accept)", "FIELDCOV(rebuild)", "COPY(struct-slices)"},
+			"Not decided: correctness of the LR(0)/LALR construction and of the shift/reduce loop as algorithms; the error-location clause. TYPESTATE(lookahead): positions of p.next are read only while a lookahead is fetched. DTX(lr0-shift): a state with a reduction that gains a shift consults the lookahead. GUARD(final): minimize keeps final states apart from ordinary states. DTX(assocmap)/LOCKSTEP(precGroup)/GUARD(optimize-la) run as part of the shared precedence and compile-order rules (see C04, C05). GUARD(dedicated-accept): the state that receives the end-of-input shift is created for its input, or is a goto target that no other state has a transition into (an input nonterminal reachable from itself must not end the parse in an inner context). FIELDCOV(rebuild): a record rebuilt from another record of its type (syntax.Input in Instantiate) gives every field. COPY(struct-slices): a value copy of a struct (clone := *last) whose slice field a callee writes in place (addShift inserts into shifts) is given its own backing array before that call; otherwise the end-of-input transition of the input's private final state is written into the shared state's array and inner contexts accept too. SIBLING(lalr-scan): every scan of a lookahead row - the generated lalr() helpers and the readers in package lalr - continues while the terminal is >= 0 (terminal 0 is end of input, not the terminator).",
+		Rules: []string{"CODEC(parser)", "SIBLING(gotoState)", "DTX(lr0-shift)", "ENTRY", "GUARD(markerfree)", "CODEC(optimize)", "GUARD(usedBase)", "GUARD(dedupe)", "GUARD(entry)", "GUARD(final)", "FIELDCOV(minimize)", "MUSTPASS(compile-order)", "MUSTPASS(nonassoc-rewrite)", "FRESH(lookahead)", "TYPESTATE(lookahead)", "RESET(histogram)", "PERITEM(flag)", "DTX(assocmap)", "GUARD(optimize-la)", "LOCKSTEP(precGroup)", "GUARD(dedicated-accept)", "FIELDCOV(rebuild)", "COPY(struct-slices)", "SIBLING(lalr-scan)"},
 		Run: func(c *Ctx) {
 			ruleTABLEIDX(c)
+			ruleLALRSCAN(c)
 			ruleGOTOSIBLING(c)
 			ruleLR0SHIFT(c)
 			ruleENTRY(c)
